@@ -77,10 +77,11 @@ def skey(e):
 
 
 def prefixed_wrapper_keys(e, acc):
-    """Operations sitting directly inside a pre-existing wrapper that carries a prefix or a non-default scope."""
+    """Operations sitting directly inside a pre-existing wrapper that carries a prefix or a non-default scope, or is of a derived wrapper type (none of
+    which can be replaced by the canonical prefix-free wrapper without losing what the caller attached to it)."""
     import pymbolic.primitives as p
     if isinstance(e, p.CommonSubexpression):
-        if e.prefix is not None or e.scope != p.cse_scope.EVALUATION:
+        if e.prefix is not None or e.scope != p.cse_scope.EVALUATION or type(e) is not p.CommonSubexpression:
             acc.add(dkey(e.child))
         prefixed_wrapper_keys(e.child, acc)
     elif isinstance(e, p.Expression):
@@ -151,6 +152,29 @@ def pool():
     ]
 
 
+_DERIVED = []
+
+
+def derived_wrapper_lists():
+    """Inputs with a wrapper of a derived type (extra constructor argument handed over by get_extra_properties) around something that repeats, around something
+    that does not, and around a plain wrapper's child: CSEMapper.map_common_subexpression's derived-type branch."""
+    import pymbolic.primitives as p
+    if not _DERIVED:
+        @p.expr_dataclass()
+        class TaggedCSE(p.CommonSubexpression):
+            tag: str = "t"
+
+            def get_extra_properties(self):
+                return {"tag": self.tag}
+        _DERIVED.append(TaggedCSE)
+    T = _DERIVED[0]
+    x, y, z = trees.X, trees.Y, trees.Z
+    s, s_c = p.Sum((x, y)), p.Sum((y, x))
+    pr = p.Product((s, z))
+    return [[T(s, "d", tag="u"), s_c], [T(s, None, tag="u"), p.Product((s, 2))], [T(pr, "d"), p.Sum((pr, 1)), s], [T(p.Sum((x, 1)), "d")], [T(pr, "d", tag="k")],
+            [p.Sum((T(s, "d"), T(s, "d"))), s], [T(p.Power(s, 2), "d"), p.Power(s_c, 2)], [p.Product((T(s, "e"), p.CommonSubexpression(s_c, "e"))), s]]
+
+
 def has_double(e):
     import pymbolic.primitives as p
     if isinstance(e, p.CommonSubexpression) and isinstance(e.child, p.CommonSubexpression):
@@ -177,6 +201,7 @@ def bounded(tier, seed, procs):
     lists = [[e] for e in pl] + [list(t) for t in itertools.product(pl, repeat=2)]
     if tier == "thorough":
         lists += [list(t) for t in itertools.islice(itertools.product(pl[:12], repeat=3), 0, 1500)]
+    lists += derived_wrapper_lists()
     for lst in lists:
         r = outcome.run(lambda: tag_common_subexpressions(lst))
         occ = Counter()
